@@ -103,6 +103,40 @@ def other_cases():
             ("error", "Ambiguous name"))
     add("import-alias-no-collision", {"w.emb": 'import "other.emb" as oth\n' + HDR + "struct Foo:\n  0 [+1]  UInt  nn\n  1 [+nn]  UInt:8[]  data\n  2 [+1]  oth.Tt  tt\n",
                                        "other.emb": HDR + "struct Tt:\n  0 [+1]  UInt  v\n"}, ("ok", ["Tt"]), (["Foo"], "tt", "type"))
+    # members looked up THROUGH an alias (virtual field whose definition is a field path): the member is searched in the
+    # type of the LAST element of the alias's path - for alias paths of 1..3 elements, alias chains of 1..2 links, and the
+    # member present in the aliased type only / in the type of the path's head only / in both / in neither
+    for depth in (1, 2, 3):
+        for chain in (1, 2):
+            for where in ("target", "head", "both", "neither"):
+                types = ""
+                size = 0
+                # T0 is the aliased (last) type; T1.. wrap it: T<k> has field ff<k-1> of type T<k-1>
+                for k in range(depth):
+                    members = "  0 [+1]  UInt  filler%d\n" % k
+                    if (k == 0 and where in ("target", "both")) or (k == depth - 1 and k != 0 and where in ("head", "both")):
+                        members += "  1 [+1]  UInt  mm\n"
+                    if k > 0:
+                        members += "  2 [+%d]  Tt%d  ff%d\n" % (size, k - 1, k - 1)
+                    size = 2 + size if k > 0 else 2
+                    if k == 0 and where not in ("target", "both"):
+                        size = 1
+                    types += "struct Tt%d:\n%s" % (k, members)
+                path = ".".join(["top"] + ["ff%d" % k for k in range(depth - 2, -1, -1)])
+                body = types + "struct Foo:\n  0 [+%d]  Tt%d  top\n  let al0 = %s\n" % (size, depth - 1, path)
+                if chain == 2:
+                    body += "  let al1 = al0\n"
+                body += "  let v = al%d.mm\n" % (chain - 1)
+                if depth == 1:
+                    present = where in ("target", "both")
+                else:
+                    present = where in ("target", "both")
+                nm = "member-through-alias[path=%d,chain=%d,member-in=%s]" % (depth, chain, where)
+                if present:
+                    add(nm, body, ("ok", ["Tt0", "mm"]), (["Foo"], "v", "expr"))
+                else:
+                    add(nm, body, ("error", "No candidate"))
+    add("member-of-inline-bits-inside-anonymous-bits", "struct Foo:\n  0 [+1]  bits:\n    0 [+4]  bits  nib:\n      0 [+4]  UInt  lo\n  let v = nib.lo\n", ("ok", None))
     imp3 = {"w.emb": 'import "other.emb" as oth\n' + HDR + 'struct Foo:\n  0 [+1]  oth.Zz  x\n', "other.emb": HDR + "struct Tt:\n  0 [+1]  UInt  v\n"}
     add("import-missing-member", imp3, ("error", "No candidate"))
     return out
